@@ -10,6 +10,7 @@ R6 the duplicate slot (id2/from2) is set only by the pending-duplicate branches,
    answered under id2 != 0 after id/from were swapped in, and never survives a new occupant
 R7 exactly two holders
 """
+import re
 from iosa import ir, guard, tables
 from iosa.ir import sk, pp, cval
 from iosa.facts import AnalysisBroken
@@ -101,14 +102,44 @@ def run(P, chk, tier):
     r2 = chk.rule("C14.R2", "send only from an occupied holder",
                   "every call send_chunk_or_dataless(.., &users[u].H) is dominated by users[u].H.id != 0, or by a whole-"
                   "structure copy of the incoming query (whose id is non-zero) into H, with nothing in between that can "
-                  "empty or replace H", "E1 (facts killed through callee mod-sets)", floor=10)
+                  "empty or replace H", "E1 (facts killed through callee mod-sets)", floor=4)
     nsend = 0
     for f in P.funcs(srv):
         for b, c in f.calls(SENDER):
             ho = holder_of(c["a"][2])
             if ho is None:
-                # a plain parameter: the obligation is the callee's contract, only holders reach it
-                chk.site(r2, f, ir.loc(c), pp(c)[:70], False, "third argument is not a session holder")
+                # a local pointer that was pointed at one holder or the other: judge each path by the holder it chose
+                a2 = sk(c["a"][2])
+                an = E.analysis(f)
+                ds = an.before_node(c["n"]) if a2.get("k") == "Ref" else None
+                if ds:
+                    nm = a2["ref"]["name"]
+                    qp = next((p["ref"]["name"] for p in f.params if (p["t"].get("to") or {}).get("rec", "").endswith("query")), "q")
+                    bad, unk, why = [], 0, set()
+                    for d in ds:
+                        tgt = None
+                        for g in d:
+                            if g.kind == "cmp" and g.op == "==" and g.key[0] == nm:
+                                tgt = holder_of(g.r) or tgt
+                            elif g.kind == "cmp" and g.op == "==" and g.key[2] == nm:
+                                tgt = holder_of(g.l) or tgt
+                        if tgt is None:
+                            unk += 1
+                            continue
+                        w = occupied(d, tgt[0], tgt[1], qp)
+                        if w:
+                            why.add("%s.%s: %s" % (tgt[0], tgt[1], w))
+                        else:
+                            bad.append((d, tgt))
+                    if unk:
+                        chk.undecided(r2, f, ir.loc(c), pp(c)[:70], "the query pointer %s is not known to point at a session holder on every path" % nm)
+                    else:
+                        nsend += 1
+                        chk.site(r2, f, ir.loc(c), pp(c)[:70], not bad,
+                                 "holder chosen per path, occupied: " + ", ".join(sorted(why)) if not bad else
+                                 "on some path %s.%s is not known to hold a query (id != 0) at the time of sending" % bad[0][1])
+                    continue
+                chk.undecided(r2, f, ir.loc(c), pp(c)[:70], "third argument is not a session holder expression")
                 continue
             nsend += 1
             base, h = ho
@@ -129,8 +160,8 @@ def run(P, chk, tier):
                      "holder occupied: " + ", ".join(sorted(why)) if not bad else
                      "on some path %s.%s is not known to hold a query (id != 0) at the time of sending" % (base, h),
                      witness={"facts": C.fmt_d(bad[0], 25)} if bad else None)
-    if nsend < 10:
-        raise AnalysisBroken("C14.R2: fewer than ten sender call sites")
+    if nsend < 4:
+        raise AnalysisBroken("C14.R2: fewer than four sender call sites")
 
     # ------------------------------------------------------------------ R3 + R6 (stores)
     r3 = chk.rule("C14.R3", "overwrite only empty",
@@ -158,7 +189,12 @@ def run(P, chk, tier):
                 continue
             for i, a in enumerate(c.get("a", ())):
                 ho = holder_of(a)
-                if ho is not None and any(d[0] == "prel" and d[1] == i for d in P.modset(t)):
+                if ho is None:
+                    continue
+                wr = [d for d in P.modset(t) if d[0] == "prel" and d[1] == i]
+                # a helper that only fills in the duplicate slot (id2/fromlen2/from2) does not replace the occupant: R6's subject
+                flds = {c_[2] for d in wr for c_ in d[2] if c_[0] == "f"}
+                if wr and not (flds and flds <= {"id2", "fromlen2", "from2"}):
                     stores.append((f, b, c, ho))
     reach_pd = set()
     for ch in "Pp0123456789abcdefABCDEF":
@@ -196,11 +232,29 @@ def run(P, chk, tier):
         ds = an.before_node(c["n"]) or []
         key = "%s.%s.id" % (base, h)
         bad = [d for d in ds if not guard.d_holds(d, "==", key, 0)]
+        if bad and f is not hnr:
+            # a helper that stores into users[p].H for its parameter p: the emptiness is its callers' business
+            m_ = re.match(r"^users\[(\w+)\]$", base)
+            pi = next((i_ for i_, p_ in enumerate(f.params) if m_ and p_["ref"]["name"] == m_.group(1)), None)
+            callers = P.callers_of(f, srv) if pi is not None else []
+            if callers:
+                allok = True
+                for g, cc in callers:
+                    if pi >= len(cc.get("a", ())):
+                        allok = False
+                        continue
+                    ak = "users[%s].%s.id" % (pp(sk(cc["a"][pi])), h)
+                    dsg = E.analysis(g).before_node(cc["n"]) or []
+                    okg = bool(dsg) and all(guard.d_holds(d, "==", ak, 0) for d in dsg)
+                    chk.site(r3, g, ir.loc(cc), "%s -> %s" % (pp(cc)[:40], pp(c)[:40]), whole and okg,
+                             "%s == 0 at the call; the helper copies the whole structure" % ak if whole and okg else
+                             "on some path %s is not known to be empty when %s() stores into it" % (ak, f.name))
+                continue
         chk.site(r3, f, ir.loc(c), pp(c)[:70], whole and not bad,
                  "%s == 0 on every path; whole structure copied" % key if whole and not bad else
                  ("partial copy into a holder" if not whole else "on some path %s is not known to be empty: a waiting query would be lost unanswered" % key),
                  witness={"facts": C.fmt_d(bad[0], 25)} if bad else None)
-    if n3 < 4:
+    if n3 < 2:
         raise AnalysisBroken("C14.R3: holder stores of the ping/data handlers not found")
     # field-wise writes into holders: direct writes to users[x].H.field, and writes through a
     # `struct query *` parameter in functions that are handed a holder
@@ -249,6 +303,25 @@ def run(P, chk, tier):
             if fld == "id":
                 ok = v is not None and cval(v) == 0
                 chk.site(r6, f, ir.loc(node), what, ok, "holder emptied" if ok else "holder id written with something other than 0")
+            elif fld in ("id2", "fromlen2", "from2") and hk is None and via_param:
+                # the bookkeeping sits in a helper: judge it where the helper is handed a holder
+                pi = next((i_ for i_, p_ in enumerate(f.params) if p_["ref"]["name"] == via_param), None)
+                if v is not None and cval(v) == 0:
+                    chk.site(r6, f, ir.loc(node), what, True, "duplicate slot cleared")
+                    continue
+                sites_ = [(g, cc) for g, cc in P.callers_of(f, srv) if pi is not None and pi < len(cc.get("a", ())) and holder_of(cc["a"][pi])]
+                if not sites_:
+                    chk.undecided(r6, f, ir.loc(node), what, "no call hands this helper a session holder")
+                    continue
+                for g, cc in sites_:
+                    hb, hh = holder_of(cc["a"][pi])
+                    hk2 = "%s.%s" % (hb, hh)
+                    dsg = E.analysis(g).before_node(cc["n"]) or []
+                    qn_ = next((p_["ref"]["name"] for p_ in g.params if (p_["t"].get("to") or {}).get("rec", "").endswith("query")), "q")
+                    okd = bool(dsg) and all(guard.d_holds(d, "!=", hk2 + ".id", 0) and guard.d_holds(d, "==", qn_ + "->type", hk2 + ".type") for d in dsg)
+                    chk.site(r6, g, ir.loc(cc), "%s -> %s" % (pp(cc)[:40], what[:30]), okd,
+                             "under holder occupied and same type/name as the incoming query" if okd else
+                             "duplicate slot written outside a pending-duplicate test")
             elif fld in ("id2", "fromlen2", "from2") and hk is not None:
                 if v is not None and cval(v) == 0:
                     chk.site(r6, f, ir.loc(node), what, True, "duplicate slot cleared")
